@@ -76,6 +76,8 @@ fn spaces(tier: Tier) -> Vec<Space> {
             Space { alpha: "SHARE", depth: 3 },
             Space { alpha: "SAME", depth: 2 },
             Space { alpha: "SAME", depth: 3 },
+            Space { alpha: "SELFX", depth: 2 },
+            Space { alpha: "SELFX", depth: 3 },
             Space { alpha: "MICRO", depth: 3 },
             Space { alpha: "A1", depth: 2 },
             Space { alpha: "CORE", depth: 3 },
@@ -91,16 +93,188 @@ fn spaces(tier: Tier) -> Vec<Space> {
             Space { alpha: "SHARE", depth: 3 },
             Space { alpha: "SAME", depth: 2 },
             Space { alpha: "SAME", depth: 3 },
+            Space { alpha: "SELFX", depth: 2 },
+            Space { alpha: "SELFX", depth: 3 },
             Space { alpha: "CORE", depth: 3 },
             Space { alpha: "A0", depth: 3 },
             Space { alpha: "MICRO", depth: 4 },
             Space { alpha: "SHARE", depth: 4 },
             Space { alpha: "SAME", depth: 4 },
+            Space { alpha: "SELFX", depth: 4 },
         ],
     }
 }
 
 type Fail = (String, String, String);
+
+/// Generated multi-patterns: ALL sequences of `k` equations `?v == node` over the templates (b ?x ?y), (u ?x),
+/// (lam $s ?x), (var $s), (h $s), (f $s $t) in canonical form: variables and slots are numbered in order of first
+/// appearance, every occurrence is an existing name or the next new one, at most `max_slots` distinct slots, and
+/// every equation after the first shares a variable or a slot with the earlier ones.  The ORDER of the equations
+/// matters to the matcher, so sequences (not sets) are enumerated.
+pub fn gen_multi(k: usize, max_slots: usize, templates: &[(&'static str, usize, usize)]) -> Vec<String> {
+    // template: (operator, number of slot arguments (first), number of variable children (after the slots))
+    fn rec(k: usize, max_slots: usize, templates: &[(&'static str, usize, usize)], eqs: &mut Vec<String>, nvars: usize, nslots: usize, out: &mut Vec<String>) {
+        if eqs.len() == k {
+            out.push(eqs.join(", "));
+            return;
+        }
+        let first = eqs.is_empty();
+        for lhs in 0..=nvars {
+            let nv1 = nvars.max(lhs + 1);
+            for (op, ns, nc) in templates {
+                // choose slots then children, each an existing index or the next new one
+                let mut partial: Vec<(Vec<usize>, usize)> = vec![(vec![], nslots)];
+                for _ in 0..*ns {
+                    let mut nxt = Vec::new();
+                    for (sl, cnt) in &partial {
+                        for s in 0..=(*cnt).min(max_slots - 1) {
+                            let mut sl2 = sl.clone();
+                            sl2.push(s);
+                            nxt.push((sl2, (*cnt).max(s + 1)));
+                        }
+                    }
+                    partial = nxt;
+                }
+                for (sl, nslots2) in partial {
+                    let mut kids: Vec<(Vec<usize>, usize)> = vec![(vec![], nv1)];
+                    for _ in 0..*nc {
+                        let mut nxt = Vec::new();
+                        for (ch, cnt) in &kids {
+                            for v in 0..=*cnt {
+                                let mut ch2 = ch.clone();
+                                ch2.push(v);
+                                nxt.push((ch2, (*cnt).max(v + 1)));
+                            }
+                        }
+                        kids = nxt;
+                    }
+                    for (ch, nvars2) in kids {
+                        if !first {
+                            let shares_var = lhs < nvars || ch.iter().any(|v| *v < nvars);
+                            let shares_slot = sl.iter().any(|s| *s < nslots);
+                            if !shares_var && !shares_slot {
+                                continue;
+                            }
+                        }
+                        let mut e = format!("?v{lhs} == ({op}");
+                        for s in &sl {
+                            e += &format!(" ${s}");
+                        }
+                        for v in &ch {
+                            e += &format!(" ?v{v}");
+                        }
+                        e += ")";
+                        eqs.push(e);
+                        rec(k, max_slots, templates, eqs, nvars2, nslots2, out);
+                        eqs.pop();
+                    }
+                }
+            }
+        }
+    }
+    let mut out = Vec::new();
+    rec(k, max_slots, templates, &mut Vec::new(), 0, 0, &mut out);
+    out
+}
+
+/// Generated single patterns: ALL patterns of depth <= `depth` over the same templates (plus `t`), canonical
+/// numbering of variables (repeats allowed) and free slots (at most `max_slots`), binders named `$8`, `$9`, ... used
+/// only below their binder (each bound name bound once and not used free).
+pub fn gen_single(depth: usize, max_slots: usize) -> Vec<String> {
+    // (operator, slot arguments, variable children, binds)
+    const TPL: [(&str, usize, usize, bool); 7] = [("b", 0, 2, false), ("u", 0, 1, false), ("lam", 0, 1, true), ("var", 1, 0, false), ("h", 1, 0, false), ("f", 2, 0, false), ("c", 0, 0, false)];
+    fn gen(depth: usize, max_slots: usize, nvars: usize, nslots: usize, scope: &Vec<String>, root: bool) -> Vec<(String, usize, usize)> {
+        let mut out = Vec::new();
+        if !root {
+            for v in 0..=nvars {
+                out.push((format!("?v{v}"), nvars.max(v + 1), nslots));
+            }
+        }
+        if depth == 0 {
+            return out;
+        }
+        for (op, ns, nc, binds) in TPL {
+            // slot arguments
+            let mut partial: Vec<(Vec<String>, usize)> = vec![(vec![], nslots)];
+            for _ in 0..ns {
+                let mut nxt = Vec::new();
+                for (sl, cnt) in &partial {
+                    for s in 0..=(*cnt).min(max_slots - 1) {
+                        let mut sl2 = sl.clone();
+                        sl2.push(format!("${s}"));
+                        nxt.push((sl2, (*cnt).max(s + 1)));
+                    }
+                    for b in scope {
+                        let mut sl2 = sl.clone();
+                        sl2.push(b.clone());
+                        nxt.push((sl2, *cnt));
+                    }
+                }
+                partial = nxt;
+            }
+            for (sl, nslots2) in partial {
+                let mut scope2 = scope.clone();
+                let mut head = format!("({op}");
+                if binds {
+                    let b = format!("${}", 8 + scope.len());
+                    head += &format!(" {b}");
+                    scope2.push(b);
+                }
+                for s in &sl {
+                    head += &format!(" {s}");
+                }
+                // children, threaded
+                let mut acc: Vec<(String, usize, usize)> = vec![(head, nvars, nslots2)];
+                for _ in 0..nc {
+                    let mut nxt = Vec::new();
+                    for (pre, nv, nsl) in &acc {
+                        for (c, nv2, nsl2) in gen(depth - 1, max_slots, *nv, *nsl, &scope2, false) {
+                            nxt.push((format!("{pre} {c}"), nv2, nsl2));
+                        }
+                    }
+                    acc = nxt;
+                }
+                for (p, nv, nsl) in acc {
+                    let p = if p.contains(' ') { format!("{p})") } else { p[1..].to_string() };
+                    out.push((p, nv, nsl));
+                }
+            }
+        }
+        out
+    }
+    gen(depth, max_slots, 0, 0, &Vec::new(), true).into_iter().map(|x| x.0).collect()
+}
+
+thread_local! {
+    static GENS: std::cell::RefCell<std::collections::HashMap<u8, std::rc::Rc<Vec<String>>>> = Default::default();
+}
+/// level 1: depth 2, two free slots; level 2: depth 3
+pub fn generated_single_pool(level: u8) -> std::rc::Rc<Vec<String>> {
+    GENS.with(|g| g.borrow_mut().entry(level).or_insert_with(|| std::rc::Rc::new(if level >= 2 { gen_single(3, 2) } else { gen_single(2, 2) })).clone())
+}
+
+pub const TEMPLATES_FULL: [(&str, usize, usize); 6] = [("b", 0, 2), ("u", 0, 1), ("lam", 1, 1), ("var", 1, 0), ("h", 1, 0), ("f", 2, 0)];
+pub const TEMPLATES_SMALL: [(&str, usize, usize); 4] = [("b", 0, 2), ("u", 0, 1), ("var", 1, 0), ("f", 2, 0)];
+
+thread_local! {
+    static GEN: std::cell::RefCell<std::collections::HashMap<u8, std::rc::Rc<Vec<String>>>> = Default::default();
+}
+/// level 1: all 2-equation multi-patterns over the full template set; level 2: additionally all 3-equation ones over the small set
+pub fn generated_pool(level: u8) -> std::rc::Rc<Vec<String>> {
+    GEN.with(|g| {
+        g.borrow_mut()
+            .entry(level)
+            .or_insert_with(|| {
+                let mut v = gen_multi(2, 2, &TEMPLATES_FULL);
+                if level >= 2 {
+                    v.extend(gen_multi(3, 2, &TEMPLATES_SMALL));
+                }
+                std::rc::Rc::new(v)
+            })
+            .clone()
+    })
+}
 
 fn pvars(p: &Pattern<Sym>, out: &mut BTreeSet<String>) {
     match p {
@@ -143,7 +317,7 @@ fn state_fp(eg: &EGraph<Sym>, rec: &[(T, AppliedId)]) -> String {
     format!("{}|{}|{}|{}|{}|{:?}|{:?}", p.number_of_classes, p.number_of_live_classes, p.sum_of_slots, p.sum_of_symmetries, eg.total_number_of_nodes(), per, finds)
 }
 
-fn run(hist: &[Op]) -> Result<(Vec<Fail>, u64, u64, u64, u64), String> {
+fn run(hist: &[Op], gen_level: u8) -> Result<(Vec<Fail>, u64, u64, u64, u64), String> {
     let nm = Naming::Numeric;
     let mut eg = EGraph::<Sym>::default();
     let mut rec = Vec::new();
@@ -162,7 +336,8 @@ fn run(hist: &[Op]) -> Result<(Vec<Fail>, u64, u64, u64, u64), String> {
     if rec.iter().any(|(t, a)| eg.find_applied_id(a).slots().len() < t.fv().len()) {
         goals |= 2;
     }
-    for ps in PATTERNS {
+    let generated_single = if gen_level > 0 { generated_single_pool(gen_level) } else { std::rc::Rc::new(Vec::new()) };
+    for ps in PATTERNS.iter().copied().chain(generated_single.iter().map(|s| s.as_str())) {
         let pat: Pattern<Sym> = Pattern::parse(ps).expect("pattern pool parses");
         let mut vars = BTreeSet::new();
         pvars(&pat, &mut vars);
@@ -194,7 +369,8 @@ fn run(hist: &[Op]) -> Result<(Vec<Fail>, u64, u64, u64, u64), String> {
             }
         }
     }
-    for ps in MULTI {
+    let generated = if gen_level > 0 { generated_pool(gen_level) } else { std::rc::Rc::new(Vec::new()) };
+    for ps in MULTI.iter().copied().chain(generated.iter().map(|s| s.as_str())) {
         let mp: MultiPattern<Sym> = MultiPattern::parse(ps).expect("multi-pattern pool parses");
         // the equations, re-parsed on the harness side
         let eqs: Vec<(String, Sym, Vec<String>)> = ps
@@ -248,6 +424,30 @@ fn run(hist: &[Op]) -> Result<(Vec<Fail>, u64, u64, u64, u64), String> {
     Ok((fails, evals, goals, fnv_str(&before), nmatches))
 }
 
+/// which segments are also matched against the GENERATED multi-pattern pool
+fn gen_level_for(tier: Tier, segname: &str) -> u8 {
+    let small = ["MICRO^2", "SAME^2", "SHARE^2"];
+    let medium = ["SAME^3", "MICRO^3", "CORE^2", "BIND^1"];
+    match tier {
+        Tier::Quick => {
+            if small.contains(&segname) || medium.contains(&segname) {
+                1
+            } else {
+                0
+            }
+        }
+        Tier::Thorough => {
+            if segname == "MICRO^2" || segname == "SAME^2" {
+                2
+            } else if small.contains(&segname) || medium.contains(&segname) || segname == "SHARE^3" || segname == "CORE^3" || segname == "A0^2" {
+                1
+            } else {
+                0
+            }
+        }
+    }
+}
+
 impl MatchProp {
     fn segs(&self, tier: Tier) -> std::rc::Rc<Vec<SpaceSeg>> {
         cached_segments(&format!("match{}", tier.name()), &spaces(tier))
@@ -265,7 +465,7 @@ impl Prop for MatchProp {
         vec!["egraph_with_symmetric_class", "egraph_with_redundant_slot", "single_pattern_match_checked", "multi_pattern_match_checked"]
     }
     fn rule(&self) -> String {
-        format!("Every multiset of union/insert operations of the stated depth over the stated alphabets, in every distinct ordering, is executed; on the resulting e-graph every pattern of a {}-pattern pool (repeated variables, repeated/free/bound slots, nested nodes) is matched with ematch_all and every multi-pattern of a {}-pattern pool with multi_ematch. For every returned substitution: all pattern variables bound to well-formed invocations; a read-only instantiation (EGraph::lookup node by node) finds the term; for multi-patterns each equation ?v == node holds (lookup of the node is eq to ?v's binding); the observable state (progress, nodes, per-class profile, canonical form of every handle) is identical before and after. Non-trivial = number of substitutions checked.", PATTERNS.len(), MULTI.len())
+        format!("Every multiset of union/insert operations of the stated depth over the stated alphabets, in every distinct ordering, is executed; on the resulting e-graph every pattern of a {}-pattern pool (repeated variables, repeated/free/bound slots, nested nodes) is matched with ematch_all and every multi-pattern of a {}-pattern pool with multi_ematch; on the small-alphabet segments (MICRO/SAME/SHARE/CORE depth 2, MICRO/SAME depth 3, BIND depth 1; thorough more) additionally EVERY 2-equation multi-pattern in canonical form over the templates (b ?x ?y) (u ?x) (lam $s ?x) (var $s) (h $s) (f $s $t) with at most 2 slots (632 equation sequences; thorough on MICRO^2/SAME^2 also all 35 584 3-equation sequences over b/u/var/f). For every returned substitution: all pattern variables bound to well-formed invocations; a read-only instantiation (EGraph::lookup node by node) finds the term; for multi-patterns each equation ?v == node holds (lookup of the node is eq to ?v's binding); the observable state (progress, nodes, per-class profile, canonical form of every handle) is identical before and after. Non-trivial = number of substitutions checked.", PATTERNS.len(), MULTI.len())
     }
     fn assumptions(&self) -> Vec<String> {
         vec!["histories that panic are counted as aborted (owned by C08)".into()]
@@ -279,12 +479,13 @@ impl Prop for MatchProp {
         let segs = self.segs(tier);
         let ops = decode(&segs[seg], idx);
         let mut out = Exec::default();
+        let gen_level = gen_level_for(tier, &segs[seg].seg.name);
         for hist in variants(&ops, Flips::None) {
             let h2 = hist.clone();
             out.traces += 1;
             out.transitions += hist.len() as u64;
             let hs = hist.iter().map(|o| o.show()).collect::<Vec<_>>().join(" ; ");
-            match fresh_thread(move || run(&h2)) {
+            match fresh_thread(move || run(&h2, gen_level)) {
                 Err(site) | Ok(Err(site)) => {
                     out.aborted.push(site);
                     out.outcomes.push("aborted".into());
